@@ -2266,11 +2266,12 @@ def c14(ck):
     # the decoders may look at the head of such a string only, and that is what the specification is given
     s = Script()
     s.add("enable", 0)
-    pats = [s.string(b"a"), s.string(b"abandon "), s.string(codec.phrase("en", rand_idx(rng)) + b" ")]
+    pats = [s.string(b"a"), s.string(codec.phrase("en", rand_idx(rng)) + b" ")] + ([] if quick else [s.string(b"abandon ")])
     for total in ([2 ** 31 + 16, 2 ** 32 + 5] if quick else [2 ** 31 - 1, 2 ** 31, 2 ** 31 + 16, 2 ** 32 - 1, 2 ** 32 + 5, 2 ** 32 + 2 ** 31 + 7]):
         for r in pats:
             s.add("decode", r, 0, 1, "rep=%d" % total)
-            s.add("decodex", r, 0, "en", 1, "rep=%d" % total)
+            if not quick or total < 2 ** 32:
+                s.add("decodex", r, 0, "en", 1, "rep=%d" % total)
     ck.add(Exec("huge-strings", s.lines, variant="plain"))
     for variant in ("san", "plain"):
         for n, grp in enumerate(chunked(strs if variant == "san" else strs[::3], 24)):
